@@ -630,7 +630,6 @@ Definition query (l : list N) (self : list N) (o : op) : option out0 :=
   | OEqualsChI ch => Some (R0Bool ((lenN l =? 1) && (to_lower (nthN 0 l) =? to_lower ch)))
   | OStartsChI ch => Some (R0Bool ((0 <? lenN l) && (to_lower (nthN 0 l) =? to_lower ch)))
   | OEndsChI ch => Some (R0Bool ((0 <? lenN l) && (to_lower (nthN (lenN l - 1) l) =? to_lower ch)))
-  | OGetDistance a max => Some (R0Nat (l0_distance l (sb a) max))
   | ONumCmp a fold => Some (R0Int (l0_natcmp l (sb a) fold))
   | _ => None
   end.
@@ -672,6 +671,8 @@ Definition mutate (s : str1) (o : op) : option (str1 * out1) :=
   | OShiftInt z => Some (append_c s (CLit (dec_of_Z z)), R1None)
   | OShiftBool b => Some (append_c s (CLit (if b then [116;114;117;101] else [102;97;108;115;101])), R1None)
   | OIndexOfC c from => Some (s, R1Int (l0_index_of (abs s) (cbytes s c) from))
+  | OGetDistance a max =>           (* GetLevenshteinDistance with the code's early exit *)
+      Some (s, R1Nat (distance_code fixed (abs s) (src_bytes (osrc s (sa a))) max))
   | OFlatten => Some (s, R1Bytes (flatten1 s))
   | _ => None
   end.
@@ -781,6 +782,7 @@ Definition mutate0 (l : list N) (o : op) : option (list N * out0) :=
   | OShiftInt z => Some (l ++ dec_of_Z z, R0None)
   | OShiftBool b => Some (l ++ (if b then [116;114;117;101] else [102;97;108;115;101]), R0None)
   | OIndexOfC c from => Some (l, R0Int (l0_index_of l (cb c) from))
+  | OGetDistance a max => Some (l, R0Nat (l0_distance l (sb a) max))
   | OFlatten => Some (l, R0Bytes (l ++ [0]))
   | _ => None
   end.
